@@ -38,6 +38,45 @@ def strategy(tier, mode):
 
 
 def check(case, mode):
+    try:
+        return _check(case, mode)
+    except Violation as v:
+        # known finding D10 (recorded for C05, same root cause): with 64-bit mode on, (P.T @ P).reduce() on a pytree
+        # with float32 and float64 leaves returns every leaf in the promoted dtype; inside a longer chain a
+        # transposition downstream then fails on the dtype of its cotangent. Only this symptom is re-keyed.
+        from .c05 import _mixed_anywhere
+
+        if mode == 'x64' and 'cotangent type does not match' in v.detail and 'raises:TypeError' in v.key \
+                and _mixed_anywhere(case['expr'], case.get('defs', [])) and _has_PtP(case['expr'], case.get('defs', [])):
+            raise Violation('reduce/TransposeIndexRule/mixed-leaf-dtypes', v.key + ': ' + v.detail)
+        raise
+
+
+def _has_PtP(r, defs) -> bool:
+    """Does the expression contain an index operator both as itself and transposed (P.T @ P can form)?"""
+    seen = {'idx': False, 'idxT': False}
+
+    def walk(r, under_T):
+        k = r['k']
+        if k == 'ref':
+            return walk(defs[r['i']], under_T)
+        if k == 'index':
+            seen['idxT' if under_T else 'idx'] = True
+        elif k in ('compose', 'add', 'sub'):
+            for o in r['ops']:
+                walk(o, under_T)
+        elif k in ('T', 'TG'):
+            walk(r['op'], not under_T)
+        elif k in ('scale', 'neg', 'pos', 'reduced', 'I'):
+            walk(r['op'], under_T)
+        elif k == 'block':
+            for b in ops._block_leaves(r['blocks']):
+                walk(b, under_T)
+    walk(r, False)
+    return seen['idx'] and seen['idxT']
+
+
+def _check(case, mode):
     defs = case.get('defs', [])
     den = ops.denote_case(case)
     op = must_not_raise('build', ops.build_case, case)
